@@ -367,6 +367,8 @@ def decide_by_facts(c, facts) -> Optional[bool]:
     relations on the same polynomial (p < 0 decides p <= 0, p != 0, -p < 0, ...). None when the facts do not decide it."""
     from sa.dataflow import cmp_negate, cmp_strip_nan
     c = cmp_strip_nan(c)
+    if c[0] == "truthy" and c[1] in ("True", "False", "None", "0", "1"):
+        return (c[1] in ("True", "1")) == c[2]            # a literal flag
     if c[0] in ("and", "or"):
         vals = [decide_by_facts(k, facts) for k in c[1]]
         if c[0] == "and":
@@ -508,3 +510,42 @@ def enclosing_if(node):
         if isinstance(p, ast.If):
             return p
     return None
+
+
+# ------------------------------------------------------------- decision tables by abstract evaluation
+
+def decision_table(fa, atoms: List[tuple], observe: Callable, loop=None) -> Dict[tuple, object]:
+    """For every truth assignment of the given atomic conditions (CMP normal forms), the function is evaluated abstractly
+    under that assignment (tests and conditional values the assignment decides collapse) and `observe(fw, events)` reports
+    what happened: `events` lists the hooks fired (see below) on live paths only. The table does not depend on how the
+    code spells its control flow (nested ifs, guard clauses with `continue`, boolean temporaries, early returns ...).
+
+    events: list of (statement, forward interpreter snapshot state) for every simple statement executed on a live path.
+    Tests the assignment does not decide are explored on both branches (the observation then sees both)."""
+    import itertools
+    from sa.forward import Forward
+    from sa.dataflow import cmp_negate
+    table = {}
+    for bits in itertools.product([True, False], repeat=len(atoms)):
+        facts = [a if b else cmp_negate(a) for a, b in zip(atoms, bits)]
+        events = []
+
+        def on_stmt(s, fw_):
+            if fw_.st.alive and not isinstance(s, (ast.If, ast.For, ast.While, ast.With)):
+                events.append((s, fw_.st.copy()))
+
+        def dec(c, facts=facts):
+            return decide_by_facts(c, facts)
+        open_tests = []
+
+        def assume(s_, f_):
+            r = dec(f_.cmp(s_.test))
+            if r is None and f_.st.alive:
+                open_tests.append((s_, f_.cmp(s_.test)))
+            return r
+        fw = Forward(fa.an, fa, on_stmt=on_stmt, assume=assume, call_effects=False)
+        fw.sym.decide = dec
+        fw.run()
+        fw.open_tests = open_tests          # tests reached on a live path that the assignment does not decide
+        table[bits] = observe(fw, events)
+    return table
